@@ -80,16 +80,6 @@ Proof.
   - specialize (IH _ _ w' H). destruct (f h); simpl; lia.
 Qed.
 
-Lemma find_psend_spec : forall l k i it p,
-  find_psend l k = Some (i, it, p) ->
-  exists j, i = k + j /\ nth_error l j = Some (it, WPSend p).
-Proof.
-  induction l as [|[it0 pc] t IH]; intros k i it p H; simpl in H; try discriminate.
-  destruct pc;
-    try (apply IH in H; destruct H as [j [-> Hj]]; exists (S j); split; [lia | exact Hj]).
-  inversion H; subst. exists 0. split; [lia | reflexivity].
-Qed.
-
 Lemma forallb_nth : forall {A} (f : A -> bool) l i w,
   forallb f l = true -> nth_error l i = Some w -> f w = true.
 Proof.
@@ -125,11 +115,8 @@ Ltac use_upd :=
       generalize dependent (List.length (filter f (upd_nth i w' l))); intros
   end.
 
-Ltac psend_spec :=
-  try match goal with
-  | H : find_psend _ 0 = Some (_, _, _) |- _ =>
-      apply find_psend_spec in H; destruct H as [?j [? H]]; simpl in *; subst
-  end.
+(* kept for the files that import it: the blocking panic send (find_psend) is gone from the model *)
+Ltac psend_spec := idtac.
 
 Lemma inv_pool_step : forall cf s l s',
   inv_pool cf s -> step cf s l = Some s' -> inv_pool cf s'.
@@ -211,7 +198,6 @@ Definition ww (p : wpc) : nat :=
   | WCancel CcDrain _ a => 6 + asum a
   | WCancel CcFin _ a => 5 + asum a
   | WRecover _ => 3
-  | WPSend _ => 2
   | WFin => 1
   | WExit => 0
   end.
@@ -225,7 +211,6 @@ Definition gw (cf : cfg) (p : gpc) : nat :=
   match p with
   | GSend rest => 4 + isum cf rest
   | GPanicCas _ => 3
-  | GPanicSend _ => 2
   | GClose => 1
   | GDone => 0
   end.
@@ -240,7 +225,6 @@ Definition rw (p : rpc) : nat :=
   | RSend _ a => 6 + rasum a
   | RDrain _ => 4
   | RPanicCas _ => 3
-  | RPSend _ => 2
   | RFinish => 1
   | RDone => 0
   end.
@@ -250,6 +234,7 @@ Definition cw (p : cpc) : nat :=
   | CCancel CcEnter => 4
   | CCancel CcDrain => 3
   | CCancel CcFin => 2
+  | COut _ => 3
   | CDrainOut _ => 2
   | CDefer _ => 1
   | CDone _ => 0
